@@ -47,6 +47,9 @@ CHECKS = {
  "C11": ("round-trip and metamorphic testing of the assembler: proptest-generated programs over all instruction classes are rendered from an AST under two independent random spellings (case per token, radix / negative decimal / OFFSET per constant, separators, line packing, trailing newline); every emitted line is decoded by an independent hand-written reader and compared structurally with the AST item; both spellings must emit identical lists and maps; label renaming and case-variant labels; ';' comments added to CLI programs must not change the run",
          "exploration; 2.4*10^4 (quick) / 8*10^5 (thorough) programs x 3 assemblies each, every instruction class and operand form of syntax.md is generated (forms from the shared AST strategies), 3*10^2 / 4*10^3 CLI pairs for the comment layer",
          "trusted: the independent IR reader and the AST normalisation (documented folding: Intel synonyms, XCHG operand order, based-indexed displacement 0, constants modulo operand width); macros are C13's subject", "3/C11"),
+ "C13": ("differential testing against a reference macro expander: proptest-generated macro libraries (parameter names that are prefixes/substrings of each other and of body tokens, operands abstracted into parameters, nested and macro-valued uses, back edges, self recursion, unknown names, late definitions, uses inside procedures) are expanded by an independent textual reference (whole-identifier substitution, explicit cycle check); the assembler's output for the program with macros must equal its output for the hand-expanded program, rejection iff the reference rejects or the expansion is invalid, diagnostic on the line of the outermost use; cyclic cases and chains up to depth 64 / 4096 run in a resource-limited child process",
+         "exploration; 3.2*10^3 (quick) / 10^5 (thorough) macro libraries, each assembled twice (with macros / hand-expanded); population of nesting depth >= 2, macro-valued parameters, substring parameter names, recursion, unknown macros, override arguments asserted; termination on deep and cyclic chains decided by the child's exit status (signal = violation, watchdog = inconclusive)",
+         "trusted: the textual reference expander in the harness; argument kinds are those the statement lists; equal argument and parameter counts; the documented space before the bracket of a macro-valued parameter", "3/C13"),
 }
 
 REASON_WIP = "check not built yet in this revision of /verif (work in progress; see DESIGN.md section 7 for the order of work)"
